@@ -61,7 +61,27 @@ def run_verus(path, modules=None, rlimit=None, threads=None, extra=None, timeout
         cmd += extra
     t0 = time.time()
     env = dict(os.environ)
-    pr = subprocess.run(cmd, capture_output=True, text=True, timeout=timeout, cwd=os.path.dirname(path), env=env)
+    # own process group: on a timeout the solver processes (grandchildren, which keep the pipes open) must go as well
+    pp = subprocess.Popen(cmd, stdout=subprocess.PIPE, stderr=subprocess.PIPE, text=True, cwd=os.path.dirname(path), env=env,
+                          start_new_session=True)
+    try:
+        p_out, p_err = pp.communicate(timeout=timeout)
+    except subprocess.TimeoutExpired:
+        import signal
+        try:
+            os.killpg(pp.pid, signal.SIGKILL)
+        except OSError:
+            pass
+        try:
+            pp.communicate(timeout=20)
+        except Exception:
+            pass
+        raise
+
+    class _PR:
+        pass
+    pr = _PR()
+    pr.returncode, pr.stdout, pr.stderr = pp.returncode, p_out, p_err
     wall = time.time() - t0
     r = VerusResult()
     r.cmd = ' '.join(cmd)
